@@ -57,6 +57,7 @@ const (
 	c13_badFlag      = 3 // site sets `ok = false`; `if !ok { ...p.error... }` follows the loop
 	c13_badSubErrors = 4 // site guarded by `err != nil` of ParseExprEx and the errors are appended to p.errors
 	c13_badCondNil   = 5 // `if cond == nil { cond = Bad }` in a reviewed header function (body hash pinned)
+	c13_badTupleFlag = 6 // guarded by isTuple of p.parseRHSOrTypeEx(false): parseLambdaExpr reports msgTupleNotSupported for every tuple it returns with allowTuple == false
 )
 
 // classes of panic sites
@@ -405,7 +406,7 @@ func genC13Parser(e *Env) error {
 		}
 		out.WriteString("].\n\n")
 	}
-	emitSites("construction sites of ast.Bad* nodes; class 0 = no error witness, 1 = dominated by p.error/p.errorExpected, 2 = nil-guard of an error-reporting helper, 3 = ok-flag with error after the loop, 4 = non-empty sub-parser error list appended, 5 = cond==nil in a reviewed header (pinned body)", "bad_sites", sites)
+	emitSites("construction sites of ast.Bad* nodes; class 0 = no error witness, 1 = dominated by p.error/p.errorExpected, 2 = nil-guard of an error-reporting helper, 3 = ok-flag with error after the loop, 4 = non-empty sub-parser error list appended, 5 = cond==nil in a reviewed header (pinned body), 6 = isTuple flag of parseRHSOrTypeEx(false) (parseLambdaExpr reports every tuple it returns when allowTuple is false)", "bad_sites", sites)
 	emitSites("panic / log.Panic* / log.Fatal* call sites; class 0 = unreviewed, 1 = bailout, 2 = re-raise of a non-bailout panic in a wrapper, 3 = assert, 4 = internal error / unexpected state, 5 = nil FileSet precondition", "panic_sites", panics)
 	emitSites("accesses to an `errors` field other than reads; class 1 = Add, 2 = append of a sub-parser/tpl error list, 3 = Sort inside a wrapper closure, 0 = anything else", "errors_writes", writes)
 	// reviewed helper / header functions: normalised body text pinned by hash (FNV-1a 64 of the go/printer text, as Z)
@@ -492,6 +493,7 @@ func c13IsErrCall(s ast.Stmt, src func(ast.Node) string) bool {
 // c13AuditFunc lists the Bad-node sites, panic sites and errors-writes of one function.
 func c13AuditFunc(p *Pkg, fd *ast.FuncDecl, fname string, src func(ast.Node) string) (sites, panics, writes []c13Site, err error) {
 	line := func(n ast.Node) int { return p.Fset.Position(n.Pos()).Line }
+	tupleChainOK := c13TupleChain(p, src)
 	// path-sensitive walk: stack of (statement list, index) frames
 	type frame struct {
 		list []ast.Stmt
@@ -554,6 +556,21 @@ func c13AuditFunc(p *Pkg, fd *ast.FuncDecl, fname string, src func(ast.Node) str
 					if src(fr.list[k]) == "p.errors = append(p.errors, err...)" {
 						return c13_badSubErrors, "non-empty ParseExprEx error list appended"
 					}
+				}
+			}
+		}
+		// isTuple flag of parseRHSOrTypeEx(false)
+		for _, c := range conds {
+			if c == "isTuple" && tupleChainOK {
+				has := false
+				ast.Inspect(fd.Body, func(n ast.Node) bool {
+					if as, ok := n.(*ast.AssignStmt); ok && src(as) == "x, isTuple := p.parseRHSOrTypeEx(false)" {
+						has = true
+					}
+					return true
+				})
+				if has {
+					return c13_badTupleFlag, "guarded by isTuple of p.parseRHSOrTypeEx(false); parseLambdaExpr reports the tuple"
 				}
 			}
 		}
@@ -774,4 +791,67 @@ func c13AuditFunc(p *Pkg, fd *ast.FuncDecl, fname string, src func(ast.Node) str
 	}
 	walkStmts(fd.Body.List, fd)
 	return
+}
+
+// c13TupleChain checks the three links on which class 6 rests:
+//   parseRHSOrTypeEx(allowTuple) passes allowTuple to parseExprEx(false, allowTuple, ...),
+//   parseExprEx passes it to parseLambdaExpr(allowTuple, ...) for a non-lhs expression,
+//   parseLambdaExpr ends with  `else if isTuple && !allowTuple { p.error(..., msgTupleNotSupported) ... }`
+//   directly before its final `return` (the only path on which a tuple leaves it).
+func c13TupleChain(p *Pkg, src func(ast.Node) string) bool {
+	has := func(fn, stmt string) bool {
+		fd := p.Func(fn)
+		if fd == nil {
+			return false
+		}
+		found := false
+		ast.Inspect(fd.Body, func(n ast.Node) bool {
+			if s, ok := n.(ast.Stmt); ok {
+				if _, isBlock := s.(*ast.BlockStmt); !isBlock && src(s) == stmt {
+					found = true
+				}
+			}
+			return true
+		})
+		return found
+	}
+	if !has("parser.parseRHSOrTypeEx", "x, isTuple = p.parseExprEx(false, allowTuple, false, false)") {
+		return false
+	}
+	if !has("parser.parseExprEx", "return p.parseLambdaExpr(allowTuple, allowCmd, allowRangeExpr)") {
+		return false
+	}
+	fd := p.Func("parser.parseLambdaExpr")
+	if fd == nil || len(fd.Body.List) < 2 {
+		return false
+	}
+	n := len(fd.Body.List)
+	if src(fd.Body.List[n-1]) != "return" {
+		return false
+	}
+	ifs, ok := fd.Body.List[n-2].(*ast.IfStmt)
+	if !ok || src(ifs.Cond) != "p.tok == token.DRARROW" {
+		return false
+	}
+	els, ok := ifs.Else.(*ast.IfStmt)
+	if !ok || src(els.Cond) != "isTuple && !allowTuple" || len(els.Body.List) == 0 || els.Else != nil {
+		return false
+	}
+	if !c13IsErrCall(els.Body.List[0], src) || !strings.Contains(src(els.Body.List[0]), "msgTupleNotSupported") {
+		return false
+	}
+	// every return inside the `p.tok == token.DRARROW` branch returns isTuple == false
+	okRet := true
+	ast.Inspect(ifs.Body, func(n ast.Node) bool {
+		if _, isLit := n.(*ast.FuncLit); isLit {
+			return false
+		}
+		if r, ok := n.(*ast.ReturnStmt); ok {
+			if len(r.Results) != 2 || src(r.Results[1]) != "false" {
+				okRet = false
+			}
+		}
+		return true
+	})
+	return okRet
 }
